@@ -351,6 +351,7 @@ func (a *Emitter) Label(name string) uint32 {
 	a.labels[name] = a.address
 
 	if a.generateText {
+		a.emitBase()
 		a.lines = append(a.lines, asmLine{
 			asmLineType: lineLabel,
 			address:     a.address,
